@@ -19,6 +19,8 @@ type Exec struct {
 	Blocked []string
 	Diverged string
 	Steps   int
+	HBFinal  uint64 // happens-before fingerprint of the complete execution
+	PrunedAt int    // >= 0: ended at this choice index, state already visited (no verdict)
 }
 
 // RunFunc executes the scenario once with the given choice prefix.
@@ -36,6 +38,12 @@ type DFSTask struct {
 	// Preempt selects CHESS-style preemption bounding (switches at blocking points are free).
 	// Default is deviation bounding: every departure from the default scheduler costs 1.
 	Preempt bool `json:"preempt,omitempty"`
+	// HB: happens-before state caching (vsched/hb.go): an execution that reaches, at a choice
+	// point beyond its prefix, a state fingerprint already visited with at least the same
+	// remaining budget is ended there and not expanded below that point. RunID scopes the
+	// visited set of a worker process to one search (scenario x bound).
+	HB    bool   `json:"hb,omitempty"`
+	RunID string `json:"run_id,omitempty"`
 }
 
 // DFSViolation is one failing schedule.
@@ -58,6 +66,8 @@ type DFSResult struct {
 	Children  []DFSTask      `json:"children,omitempty"`
 	Nondet    string         `json:"nondet,omitempty"`
 	Rechecks  int            `json:"rechecks"`
+	Pruned    int            `json:"pruned,omitempty"`   // executions ended at an already visited state
+	HBTraces  []uint64       `json:"hb_traces,omitempty"` // distinct happens-before fingerprints of complete executions
 }
 
 type dfsState struct {
@@ -68,6 +78,35 @@ type dfsState struct {
 	hists    map[uint64]bool
 	deadline time.Time
 	maxExecs int
+	hb       bool
+	traces   map[uint64]bool
+}
+
+// visited set of this worker process for the current search (DFSTask.RunID)
+var (
+	hbRunID   string
+	hbVisited map[uint64]int
+)
+
+const hbVisitedCap = 3 << 20
+
+func (d *dfsState) setVisited(budget int) {
+	if !d.hb {
+		return
+	}
+	vsched.DefaultHB = true
+	vsched.DefaultVisited = func(k uint64) bool {
+		b, ok := hbVisited[k]
+		if ok && b >= budget {
+			return true
+		}
+		// bounded memory: beyond the cap known states are still recognised, new ones are
+		// no longer remembered (costs pruning, never soundness)
+		if ok || len(hbVisited) < hbVisitedCap {
+			hbVisited[k] = budget
+		}
+		return false
+	}
 }
 
 func (d *dfsState) stop() bool {
@@ -88,6 +127,14 @@ func (d *dfsState) stop() bool {
 func (d *dfsState) one(prefix []int) *Exec {
 	x := d.run(prefix)
 	d.res.Execs++
+	if x.PrunedAt >= 0 && x.Verdict == "pruned" {
+		d.res.Pruned++
+		d.res.SumPoints += len(x.Points)
+		return x
+	}
+	if d.hb {
+		d.traces[x.HBFinal] = true
+	}
 	if len(x.Points) > d.res.MaxPoints {
 		d.res.MaxPoints = len(x.Points)
 	}
@@ -99,7 +146,10 @@ func (d *dfsState) one(prefix []int) *Exec {
 	}
 	// determinism self-check: every 256th execution and every candidate violation twice
 	if d.res.Execs%256 == 1 || len(x.Viol) > 0 {
+		saved := vsched.DefaultVisited
+		vsched.DefaultVisited = nil
 		y := d.run(prefix)
+		vsched.DefaultVisited = saved
 		d.res.Rechecks++
 		if y.Hist != x.Hist || len(y.Points) != len(x.Points) || len(y.Viol) != len(x.Viol) {
 			d.res.Nondet = fmt.Sprintf("prefix %v: replay differs (hist %x vs %x, points %d vs %d, viol %v vs %v)", prefix, x.Hist, y.Hist, len(x.Points), len(y.Points), x.Viol, y.Viol)
@@ -153,6 +203,7 @@ func (d *dfsState) explore(prefix []int, budget int) {
 	if d.stop() {
 		return
 	}
+	d.setVisited(budget)
 	x := d.one(prefix)
 	if d.res.Capped {
 		return
@@ -183,11 +234,17 @@ func (d *dfsState) explore(prefix []int, budget int) {
 // RunDFSTask is the worker side of the schedule search.
 func RunDFSTask(t *DFSTask, run RunFunc) *DFSResult {
 	res := &DFSResult{Outcomes: map[string]int{}}
-	d := &dfsState{run: run, res: res, hists: map[uint64]bool{}, maxExecs: t.MaxExecs, preempt: t.Preempt}
+	d := &dfsState{run: run, res: res, hists: map[uint64]bool{}, maxExecs: t.MaxExecs, preempt: t.Preempt, hb: t.HB, traces: map[uint64]bool{}}
 	if t.Deadline > 0 {
 		d.deadline = time.Unix(t.Deadline, 0)
 	}
+	vsched.DefaultHB, vsched.DefaultVisited = false, nil
+	defer func() { vsched.DefaultHB, vsched.DefaultVisited = false, nil }()
+	if t.HB && (hbRunID != t.RunID || hbVisited == nil) {
+		hbRunID, hbVisited = t.RunID, map[uint64]int{}
+	}
 	if t.Expand {
+		d.setVisited(t.Budget)
 		x := d.one(t.Prefix)
 		if !res.Capped {
 			base := make([]int, len(x.Points))
@@ -205,7 +262,7 @@ func RunDFSTask(t *DFSTask, run RunFunc) *DFSResult {
 				}
 				for alt := 1; alt < p.N; alt++ {
 					child := append(append(make([]int, 0, i+1), base[:i]...), alt)
-					res.Children = append(res.Children, DFSTask{Scenario: t.Scenario, Params: t.Params, Prefix: child, Budget: t.Budget - cost, Deadline: t.Deadline, MaxExecs: t.MaxExecs, Preempt: t.Preempt})
+					res.Children = append(res.Children, DFSTask{Scenario: t.Scenario, Params: t.Params, Prefix: child, Budget: t.Budget - cost, Deadline: t.Deadline, MaxExecs: t.MaxExecs, Preempt: t.Preempt, HB: t.HB, RunID: t.RunID})
 				}
 			}
 		}
@@ -219,8 +276,18 @@ func RunDFSTask(t *DFSTask, run RunFunc) *DFSResult {
 		}
 	}
 	sort.Slice(res.Hists, func(i, j int) bool { return res.Hists[i] < res.Hists[j] })
+	for h := range d.traces {
+		res.HBTraces = append(res.HBTraces, h)
+		if len(res.HBTraces) >= 200000 {
+			break
+		}
+	}
 	return res
 }
+
+// UseHB switches happens-before state caching on for the searches started by RunDFS; set by
+// the drivers whose harness code reports its own shared state as events (checks/conc.go).
+var UseHB bool
 
 // DFSStats aggregates a whole search.
 type DFSStats struct {
@@ -231,13 +298,15 @@ type DFSStats struct {
 	Capped                                bool
 	Nondet                                string
 	Subtrees                              int
+	Pruned                                int
+	HBTraces                              map[uint64]bool
 }
 
 // RunDFS explores the schedule tree of one scenario up to the deviation bound, sharding
 // subtrees over the pool: the root and (for bounds >= 2) its children are expanded
 // first, the resulting subtrees are searched by workers.
 func RunDFS(c *Ctx, pool *Pool, scenario string, params any, bound int, maxExecsPerTask int, preempt ...bool) *DFSStats {
-	st := &DFSStats{Hists: map[uint64]bool{}, Outcomes: map[string]int{}}
+	st := &DFSStats{Hists: map[uint64]bool{}, Outcomes: map[string]int{}, HBTraces: map[uint64]bool{}}
 	var pj json.RawMessage
 	if params != nil {
 		pj = MustJSON(params)
@@ -247,6 +316,10 @@ func RunDFS(c *Ctx, pool *Pool, scenario string, params any, bound int, maxExecs
 		st.Execs += r.Execs
 		st.SumPoints += r.SumPoints
 		st.Rechecks += r.Rechecks
+		st.Pruned += r.Pruned
+		for _, h := range r.HBTraces {
+			st.HBTraces[h] = true
+		}
 		if r.MaxPoints > st.MaxPoints {
 			st.MaxPoints = r.MaxPoints
 		}
@@ -266,7 +339,8 @@ func RunDFS(c *Ctx, pool *Pool, scenario string, params any, bound int, maxExecs
 			st.Nondet = r.Nondet
 		}
 	}
-	level := []DFSTask{{Scenario: scenario, Params: pj, Prefix: nil, Budget: bound, Deadline: deadline, MaxExecs: maxExecsPerTask, Expand: true, Preempt: len(preempt) > 0 && preempt[0]}}
+	level := []DFSTask{{Scenario: scenario, Params: pj, Prefix: nil, Budget: bound, Deadline: deadline, MaxExecs: maxExecsPerTask, Expand: true, Preempt: len(preempt) > 0 && preempt[0],
+		HB: UseHB, RunID: fmt.Sprintf("%s/%d/%d", scenario, bound, time.Now().UnixNano())}}
 	// expand two levels (root, then its children) to get enough subtrees for 16 workers
 	for depth := 0; depth < 2 && len(level) > 0; depth++ {
 		var tasks [][]byte
